@@ -29,7 +29,8 @@ theorem recursiveRemove_spec (version : Nat) (key : Bytes) :
         (orph' = [] ↔ (Node.recursiveRemove version t key).removed = false) ∧
         res.newKey = (Node.recursiveRemove version t key).newKey ∧
         res.value = (Node.recursiveRemove version t key).value ∧
-        RemSlot H (Fresh st P) st' (Node.recursiveRemove version t key).node res := by
+        RemSlot H (Fresh st P) st' (Node.recursiveRemove version t key).node res ∧
+        (∀ x ∈ orph', Valid st' x) := by
   intro t
   induction t with
   | leaf k v ver =>
@@ -38,13 +39,14 @@ theorem recursiveRemove_spec (version : Nat) (key : Bytes) :
     have hrep0 := hrep
     obtain ⟨hPa, c, ha, hk, hv, hh, _, _, _, _, hhash, _⟩ := hrep0
     by_cases hkey : key = k
-    · refine ⟨st, ⟨none, none, none, c.value⟩, [a], ?_, ExtOn.refl _ _, hc, ?_, ?_, ?_, ?_⟩
+    · refine ⟨st, ⟨none, none, none, c.value⟩, [a], ?_, ExtOn.refl _ _, hc, ?_, ?_, ?_, ?_,
+        fun x hx => by rw [List.mem_singleton.mp hx]; exact Rep.valid H hrep⟩
       · simp [recursiveRemove, ha, hh, hk, hkey]
       · simp [Node.recursiveRemove, hkey]
       · simp [Node.recursiveRemove, hkey]
       · simp [Node.recursiveRemove, hkey, hv]
       · simp [Node.recursiveRemove, hkey, RemSlot]
-    · refine ⟨st, ⟨c.hash, some a, none, none⟩, [], ?_, ExtOn.refl _ _, hc, ?_, ?_, ?_, ?_⟩
+    · refine ⟨st, ⟨c.hash, some a, none, none⟩, [], ?_, ExtOn.refl _ _, hc, ?_, ?_, ?_, ?_, fun _ hx => by cases hx⟩
       · have : ¬ key = c.key := by rw [hk]; exact hkey
         simp [recursiveRemove, ha, hh, this]
       · simp [Node.recursiveRemove, hkey]
@@ -63,7 +65,7 @@ theorem recursiveRemove_spec (version : Nat) (key : Bytes) :
     by_cases hlt : key < k
     · have hlt' : key < c.key := by rw [hk]; exact hlt
       obtain ⟨st1, lp, hg1, he1, hc1, hrl1⟩ := getLeft_spec H hc ha hl
-      obtain ⟨st2, res, orph2, hrec, he2, hc2, horph, hnk, hval, hslot⟩ := ihl fuel _ st1 lp hdl hc1 hrl1
+      obtain ⟨st2, res, orph2, hrec, he2, hc2, horph, hnk, hval, hslot, hv2⟩ := ihl fuel _ st1 lp hdl hc1 hrl1
       have he02 : Ext st st2 := he1.trans he2
       have ha2 : st2.heap[a]? = some c := he02.cells a c trivial ha
       -- common footprint for everything represented in st2
@@ -72,7 +74,7 @@ theorem recursiveRemove_spec (version : Nat) (key : Bytes) :
       cases hrm : (Node.recursiveRemove version l key).removed with
       | false =>
         have horph2 : orph2 = [] := horph.mpr hrm
-        refine ⟨st2, ⟨c.hash, some a, none, res.value⟩, orph2, ?_, he02, hc2, ?_, ?_, ?_, ?_⟩
+        refine ⟨st2, ⟨c.hash, some a, none, res.value⟩, orph2, ?_, he02, hc2, ?_, ?_, ?_, ?_, hv2⟩
         · subst horph2
           simp only [recursiveRemove, ha, hc0, hlt', hg1, hrec, Option.bind_eq_bind, Option.bind_some, if_false, if_true,
             List.isEmpty_nil]
@@ -92,7 +94,11 @@ theorem recursiveRemove_spec (version : Nat) (key : Bytes) :
         | none =>
           rw [hnode] at hslot
           obtain ⟨e1, e2⟩ := hslot
-          refine ⟨st2, ⟨c.rightHash, c.rightPtr, some c.key, res.value⟩, orph2 ++ [a], ?_, he02, hc2, ?_, ?_, ?_, ?_⟩
+          refine ⟨st2, ⟨c.rightHash, c.rightPtr, some c.key, res.value⟩, orph2 ++ [a], ?_, he02, hc2, ?_, ?_, ?_, ?_,
+            fun x hx => by
+            rcases List.mem_append.mp hx with hx | hx
+            · exact hv2 x hx
+            · rw [List.mem_singleton.mp hx]; exact (Rep.valid H hrep).ext he02 trivial⟩
           · simp only [recursiveRemove, ha, hc0, hlt', hg1, hrec, Option.bind_eq_bind, Option.bind_some, if_false, if_true,
               hemp, e1, e2, Option.isNone_none, Bool.and_self, Bool.false_eq_true]
           · simp [Node.recursiveRemove, hlt, hrm, hnode]
@@ -132,14 +138,28 @@ theorem recursiveRemove_spec (version : Nat) (key : Bytes) :
           obtain ⟨st5, hcalc, he5, hc5, hnn5⟩ := calcHS_spec H hc4 hnn4 rfl hnotPB hl4 hr4
           have hl5 := Slot.ext H hl4 he5 hPBne
           have hr5 := Slot.ext H hr4 he5 hPBne
-          obtain ⟨st6, n, orph6, cn6, hbal, he6, hc6, hrep6, hn6, hnp6, hh6, _, hext⟩ :=
+          obtain ⟨st6, n, orph6, cn6, hbal, he6, hc6, hrep6, hn6, hnp6, hh6, _, extra, hext, hvx⟩ :=
             balance_spec H version (orph2 ++ [a]) hc5 hnn5 rfl hnotPB hk rfl (Nat.succ_ne_zero _) rfl rfl rfl hl5 hr5
-          refine ⟨st6, ⟨cn6.hash, some n, res.newKey, res.value⟩, orph6, ?_, ?_, hc6, ?_, ?_, ?_, ?_⟩
+          have hvfin : ∀ x ∈ orph6, Valid st6 x := by
+            intro x hx
+            have he26 : ExtOn (· ≠ nn) st2 st6 := (he24.trans he5).trans he6
+            have hne : ∀ y, Valid st2 y → y ≠ nn := fun y hy => by
+              obtain ⟨cy, hcy, _⟩ := hy
+              exact Nat.ne_of_lt (lt_of_get hcy)
+            rw [hext] at hx
+            rcases List.mem_append.mp hx with hx | hx
+            · rcases List.mem_append.mp hx with hx | hx
+              · exact (hv2 x hx).ext he26 (hne x (hv2 x hx))
+              · rw [List.mem_singleton.mp hx]
+                have hva : Valid st2 a := (Rep.valid H hrep).ext he02 trivial
+                exact hva.ext he26 (hne a hva)
+            · exact hvx x hx
+          refine ⟨st6, ⟨cn6.hash, some n, res.newKey, res.value⟩, orph6, ?_, ?_, hc6, ?_, ?_, ?_, ?_, hvfin⟩
           · simp only [recursiveRemove, ha, hc0, hlt', hg1, hrec, Option.bind_eq_bind, Option.bind_some, if_false, if_true,
               hemp, hnb, Bool.false_eq_true, e3, e4, hcalc, hbal, hn6]
           · exact ((he02.on (· < st.heap.length)).trans (((he24.trans he5).trans he6).mono
               (fun x hx => Nat.ne_of_lt (Nat.lt_of_lt_of_le hx he02.len)))).toExt (fun _ _ hx => lt_of_get hx)
-          · obtain ⟨extra, rfl⟩ := hext
+          · subst hext
             simp [Node.recursiveRemove, hlt, hrm, hnode]
           · simp [Node.recursiveRemove, hlt, hrm, hnode, hnk]
           · simp [Node.recursiveRemove, hlt, hrm, hnode, hval]
@@ -151,7 +171,7 @@ theorem recursiveRemove_spec (version : Nat) (key : Bytes) :
             · exact Or.inr (Or.inl (by rw [hx]; exact he02.len))
     · have hlt' : ¬ key < c.key := by rw [hk]; exact hlt
       obtain ⟨st1, rp, hg1, he1, hc1, hrr1⟩ := getRight_spec H hc ha hr
-      obtain ⟨st2, res, orph2, hrec, he2, hc2, horph, hnk, hval, hslot⟩ := ihr fuel _ st1 rp hdr hc1 hrr1
+      obtain ⟨st2, res, orph2, hrec, he2, hc2, horph, hnk, hval, hslot, hv2⟩ := ihr fuel _ st1 rp hdr hc1 hrr1
       have he02 : Ext st st2 := he1.trans he2
       have ha2 : st2.heap[a]? = some c := he02.cells a c trivial ha
       let PB : Addr → Prop := fun x => Fresh st P x ∧ x < st2.heap.length
@@ -159,7 +179,7 @@ theorem recursiveRemove_spec (version : Nat) (key : Bytes) :
       cases hrm : (Node.recursiveRemove version r key).removed with
       | false =>
         have horph2 : orph2 = [] := horph.mpr hrm
-        refine ⟨st2, ⟨c.hash, some a, none, res.value⟩, orph2, ?_, he02, hc2, ?_, ?_, ?_, ?_⟩
+        refine ⟨st2, ⟨c.hash, some a, none, res.value⟩, orph2, ?_, he02, hc2, ?_, ?_, ?_, ?_, hv2⟩
         · subst horph2
           simp only [recursiveRemove, ha, hc0, hlt', hg1, hrec, Option.bind_eq_bind, Option.bind_some, if_false, if_true,
             List.isEmpty_nil]
@@ -179,7 +199,11 @@ theorem recursiveRemove_spec (version : Nat) (key : Bytes) :
         | none =>
           rw [hnode] at hslot
           obtain ⟨e1, e2⟩ := hslot
-          refine ⟨st2, ⟨c.leftHash, c.leftPtr, none, res.value⟩, orph2 ++ [a], ?_, he02, hc2, ?_, ?_, ?_, ?_⟩
+          refine ⟨st2, ⟨c.leftHash, c.leftPtr, none, res.value⟩, orph2 ++ [a], ?_, he02, hc2, ?_, ?_, ?_, ?_,
+            fun x hx => by
+            rcases List.mem_append.mp hx with hx | hx
+            · exact hv2 x hx
+            · rw [List.mem_singleton.mp hx]; exact (Rep.valid H hrep).ext he02 trivial⟩
           · simp only [recursiveRemove, ha, hc0, hlt', hg1, hrec, Option.bind_eq_bind, Option.bind_some, if_false, if_true,
               hemp, e1, e2, Option.isNone_none, Bool.and_self, Bool.false_eq_true]
           · simp [Node.recursiveRemove, hlt, hrm, hnode]
@@ -236,15 +260,29 @@ theorem recursiveRemove_spec (version : Nat) (key : Bytes) :
           obtain ⟨st6, hcalc, he6, hc6, hnn6⟩ := calcHS_spec H hc5 hnn5 rfl hnotPB hl5 hr5
           have hl6 := Slot.ext H hl5 he6 hPBne
           have hr6 := Slot.ext H hr5 he6 hPBne
-          obtain ⟨st7, n, orph7, cn7, hbal, he7, hc7, hrep7, hn7, hnp7, hh7, _, hext⟩ :=
+          obtain ⟨st7, n, orph7, cn7, hbal, he7, hc7, hrep7, hn7, hnp7, hh7, _, extra, hext, hvx⟩ :=
             balance_spec H (k := k') (ver := version) version (orph2 ++ [a]) hc6 hnn6 rfl hnotPB rfl rfl
               (Nat.succ_ne_zero _) rfl rfl rfl hl6 hr6
-          refine ⟨st7, ⟨cn7.hash, some n, none, res.value⟩, orph7, ?_, ?_, hc7, ?_, ?_, ?_, ?_⟩
+          have hvfin : ∀ x ∈ orph7, Valid st7 x := by
+            intro x hx
+            have he27 : ExtOn (· ≠ nn) st2 st7 := (he25.trans he6).trans he7
+            have hne : ∀ y, Valid st2 y → y ≠ nn := fun y hy => by
+              obtain ⟨cy, hcy, _⟩ := hy
+              exact Nat.ne_of_lt (lt_of_get hcy)
+            rw [hext] at hx
+            rcases List.mem_append.mp hx with hx | hx
+            · rcases List.mem_append.mp hx with hx | hx
+              · exact (hv2 x hx).ext he27 (hne x (hv2 x hx))
+              · rw [List.mem_singleton.mp hx]
+                have hva : Valid st2 a := (Rep.valid H hrep).ext he02 trivial
+                exact hva.ext he27 (hne a hva)
+            · exact hvx x hx
+          refine ⟨st7, ⟨cn7.hash, some n, none, res.value⟩, orph7, ?_, ?_, hc7, ?_, ?_, ?_, ?_, hvfin⟩
           · simp only [recursiveRemove, ha, hc0, hlt', hg1, hrec, Option.bind_eq_bind, Option.bind_some, if_false, if_true,
               hemp, hnb, Bool.false_eq_true, e3, e4, e5, hcalc, hbal, hn7]
           · exact ((he02.on (· < st.heap.length)).trans (((he25.trans he6).trans he7).mono
               (fun x hx => Nat.ne_of_lt (Nat.lt_of_lt_of_le hx he02.len)))).toExt (fun _ _ hx => lt_of_get hx)
-          · obtain ⟨extra, rfl⟩ := hext
+          · subst hext
             simp [Node.recursiveRemove, hlt, hrm, hnode]
           · simp [Node.recursiveRemove, hlt, hrm, hnode]
           · simp [Node.recursiveRemove, hlt, hrm, hnode, hval]
